@@ -3,6 +3,7 @@ package main
 import (
 	"fmt"
 	"math/rand"
+	"os"
 	"strconv"
 	"strings"
 	"sync"
@@ -103,6 +104,80 @@ type probeReq struct{}
 
 func (probeReq) GetFeatureName() string { return "\x00probe" }
 
+// armTracker remembers when the timers of outstanding requests were armed (harness-side clock)
+type armTracker struct {
+	mu sync.Mutex
+	t  map[string]time.Time
+}
+
+func (a *armTracker) reset() {
+	a.mu.Lock()
+	a.t = map[string]time.Time{}
+	a.mu.Unlock()
+}
+func (a *armTracker) arm(key string) {
+	a.mu.Lock()
+	if a.t == nil {
+		a.t = map[string]time.Time{}
+	}
+	a.t[key] = time.Now()
+	a.mu.Unlock()
+}
+func (a *armTracker) dropPrefix(pre string) {
+	a.mu.Lock()
+	for k := range a.t {
+		if strings.HasPrefix(k, pre) {
+			delete(a.t, k)
+		}
+	}
+	a.mu.Unlock()
+}
+func (a *armTracker) dropSuffix(suf string) {
+	a.mu.Lock()
+	for k := range a.t {
+		if strings.HasSuffix(k, suf) {
+			delete(a.t, k)
+		}
+	}
+	a.mu.Unlock()
+}
+func (a *armTracker) rearm() {
+	a.mu.Lock()
+	for k := range a.t {
+		a.t[k] = time.Now()
+	}
+	a.mu.Unlock()
+}
+
+// observe drops the requests concluded according to the observation line
+func (a *armTracker) observe(out string) {
+	a.mu.Lock()
+	defer a.mu.Unlock()
+	for _, p := range strings.Split(out, " ") {
+		f := strings.Split(p, ":")
+		switch f[0] {
+		case "resp", "err", "cancel":
+			if len(f) >= 3 && (len(f[1]) <= 1) { // server form kind:client:id  (client ids are single letters)
+				delete(a.t, f[1]+":"+f[2])
+			}
+			if len(f) >= 2 {
+				delete(a.t, ":"+f[1]) // client form kind:id
+			}
+		}
+	}
+}
+func (a *armTracker) oldest() time.Duration {
+	a.mu.Lock()
+	defer a.mu.Unlock()
+	var d time.Duration
+	for _, t := range a.t {
+		if x := time.Since(t); x > d {
+			d = x
+		}
+	}
+	return d
+}
+
 type evlog struct {
 	mu  sync.Mutex
 	evs []string
@@ -121,8 +196,30 @@ func (l *evlog) take() []string {
 	return e
 }
 
+// goroutines already wedged when a session starts (left behind by an earlier session of the same process) are not
+// this session's; they are remembered here and ignored
+var stuckBaseline = map[string]bool{}
+
+func rebaseStuck() {
+	stuck, _ := quiesce(500 * time.Millisecond)
+	stuckBaseline = map[string]bool{}
+	for _, g := range stuck {
+		stuckBaseline[g.id] = true
+		if f, err := os.OpenFile(verifRoot()+"/gen/leftover.log", os.O_APPEND|os.O_CREATE|os.O_WRONLY, 0o644); err == nil {
+			fmt.Fprintln(f, "LEFTOVER-WEDGED-GOROUTINE", g.state, g.top, g.where)
+			f.Close()
+		}
+	}
+}
+
 func settle(l *evlog) string {
-	stuck, ok := quiesce(2 * time.Second)
+	stuck0, ok := quiesce(2 * time.Second)
+	var stuck []gstate
+	for _, g := range stuck0 {
+		if !stuckBaseline[g.id] {
+			stuck = append(stuck, g)
+		}
+	}
 	evs := l.take()
 	if !ok {
 		evs = append(evs, "NOT-QUIESCENT")
@@ -144,6 +241,9 @@ func runCDisp(ops []string, emit func(string)) {
 	ocppj.SetMessageIdGenerator(func() string { return nextID })
 	tainted := false
 	dead := false
+	arms := &armTracker{}
+	var waitStart time.Time
+	var waitOldest time.Duration
 	for _, l := range ops {
 		f := fields(l)
 		if f[0] == "reset" {
@@ -154,10 +254,13 @@ func runCDisp(ops []string, emit func(string)) {
 				}()
 			}
 			capacity, _ := strconv.Atoi(f[1])
+			lg = &evlog{} // a fresh log: late effects of the previous session's endpoint must not leak into this one
+			lg := lg
 			fc = &fakeClient{}
 			fc.onWrite = func(data []byte) {
 				fr, err := parseFrame(data)
 				if err == nil && fr.Type == 2 {
+					arms.arm(":" + fr.ID)
 					lg.add("wrote:" + fr.ID)
 				} else {
 					lg.add("wrote-other")
@@ -178,7 +281,9 @@ func runCDisp(ops []string, emit func(string)) {
 				lg.add("cancel:" + id + ":" + kind)
 			})
 			lg.take()
+			arms.reset()
 			tainted, dead = false, false
+			rebaseStuck()
 			emit("ok")
 			continue
 		}
@@ -221,6 +326,12 @@ func runCDisp(ops []string, emit func(string)) {
 				// the reader goroutine hangs inside the library
 			}
 		case "wait":
+			waitStart, waitOldest = time.Now(), arms.oldest()
+			if waitOldest > dispTimeout/2 {
+				tainted = true
+				emit("TIMING")
+				continue
+			}
 			time.Sleep(dispTimeout + 15*time.Millisecond)
 		case "disconnect":
 			fc.drop(fmt.Errorf("connection lost"))
@@ -231,6 +342,7 @@ func runCDisp(ops []string, emit func(string)) {
 			case <-done:
 			case <-time.After(300 * time.Millisecond):
 			}
+			arms.rearm()
 		case "writefail":
 			if f[1] == "on" {
 				fc.setWriteErr(fmt.Errorf("injected write failure"))
@@ -242,6 +354,16 @@ func runCDisp(ops []string, emit func(string)) {
 			continue
 		}
 		out := settle(lg)
+		arms.observe(out)
+		if f[0] == "wait" && time.Since(waitStart)+waitOldest > 2*dispTimeout-10*time.Millisecond {
+			// the harness overslept: a request written at the first expiry may already have expired too
+			tainted = true
+			emit("TIMING")
+			continue
+		}
+		if f[0] == "disconnect" || f[0] == "stop" {
+			arms.reset()
+		}
 		if f[0] != "wait" && strings.Contains(out, ":timeout") {
 			// a real timer fired although the model's clock did not advance: the harness was descheduled
 			tainted = true
